@@ -85,7 +85,8 @@ def build_lib(variant="plain", units=("mir.c", "mir-gen.c"), extra_flags=""):
     flags = flags + " -D%s -DMIR_PARALLEL_GEN -I%s %s" % (GUARD, REPO, extra_flags)
     hs = tree_hash(repo_sources())
     key = hashlib.sha256((hs + cc + flags).encode()).hexdigest()[:12]
-    d = os.path.join(OUT, "build", variant + "-" + key)
+    rtag = hashlib.md5(os.path.abspath(REPO).encode()).hexdigest()[:4]
+    d = os.path.join(OUT, "build", "%s-%s-%s" % (variant, rtag, key))
     os.makedirs(d, exist_ok=True)
     objs, procs = [], []
     for u in units:
@@ -100,8 +101,8 @@ def build_lib(variant="plain", units=("mir.c", "mir-gen.c"), extra_flags=""):
         if p.returncode != 0:
             raise MachineryError("build of %s (%s) failed:\n%s" % (u, variant, o.decode()[-4000:]))
     # prune old builds of this variant
-    for old in glob.glob(os.path.join(OUT, "build", variant + "-*")):
-        if old != d:
+    for old in glob.glob(os.path.join(OUT, "build", "%s-%s-*" % (variant, rtag))):
+        if old != d and time.time() - os.path.getmtime(old) > 600:
             shutil.rmtree(old, ignore_errors=True)
     return d, objs, cc, flags
 
@@ -118,13 +119,14 @@ def build_header_harness(name, src, variant="asan", extra_flags="", libs="-lm"):
     """Compile a harness that only includes headers of /repo (containers, reduce)."""
     cc, flags = VARIANTS[variant]
     hs = tree_hash(repo_sources() + [src])
-    key = hashlib.sha256((hs + cc + flags + extra_flags).encode()).hexdigest()[:12]
+    key = hashlib.sha256((hs + cc + flags + extra_flags + os.path.abspath(REPO)).encode()).hexdigest()[:12]
     d = os.path.join(OUT, "hbuild")
     os.makedirs(d, exist_ok=True)
     exe = os.path.join(d, "%s-%s" % (name, key))
     if not os.path.exists(exe):
         for old in glob.glob(os.path.join(d, name + "-*")):
-            os.unlink(old)
+            if time.time() - os.path.getmtime(old) > 600:
+                os.unlink(old)
         cmd = "%s %s -D%s %s -I%s -I%s %s -o %s %s" % (cc, flags, GUARD, extra_flags, REPO, HARNESS, src, exe, libs)
         rc, o, e = sh(cmd, timeout=600)
         if rc != 0:
